@@ -210,13 +210,100 @@ def cases_moveatom():
     return 'Trace_MoveAtom', MA_CFG, out
 
 
+# ---- byte-level specifications: a trace RECORDED from the unchanged implementation, then single fields corrupted -------
+def _recorded():
+    """-> list of (module, cfg, cases); needs /repo (the traces are produced by the drivers' own recorders)"""
+    from harness import common
+    common.import_repo()
+    from harness.drivers import xmapgeom, groview, itp, grofile
+    wd = tempfile.mkdtemp(prefix='verif_binding_rec_')
+    out = []
+    # XMapGeom: a random reference with all three groups of events
+    tr = None
+    for seed in range(100, 140):
+        t = xmapgeom.random_trace(seed, 1, wd, {'C01', 'C02', 'C03'})
+        ops = [e['op'] for e in t['ev']]
+        if t['cfg']['n'] >= 4 and not t['cfg']['degenerate'] and 'CallDeformed' in ops and 'Displace' in ops and t['cfg']['nt'] >= 3:
+            tr = t
+            break
+    ix = {op: [i for i, e in enumerate(tr['ev']) if e['op'] == op] for op in ('Build', 'CallSame', 'CallRigid', 'CallDeformed', 'Displace')}
+
+    def flip(i, key, k=0):
+        def fn(t):
+            t['ev'][i][key][k] = not t['ev'][i][key][k]
+        return fn
+
+    def other_anchor(t):
+        e = t['ev'][ix['Build'][0]]
+        e['equiv'][0] = next(a for a in range(1, t['cfg']['n'] + 1) if a != e['equiv'][0])
+    dsp = ix['Displace'][0]
+    unch = tr['ev'][dsp]['unchanged']
+    cases = [('recorded trace', tr, None),
+             ('atom not at the law point', mutate(tr, flip(ix['CallSame'][0], 'law')), 'law'),
+             ('image of moved reference differs', mutate(tr, flip(ix['CallRigid'][0], 'eq')), 'equivariant'),
+             ('distance to anchor not scaled', mutate(tr, flip(ix['CallDeformed'][0], 'dist')), 'scaled_distance'),
+             ('group lost its mutual distances', mutate(tr, flip(ix['CallDeformed'][0], 'mutual')), 'mutual_distance'),
+             ('another anchor recorded', mutate(tr, other_anchor), None if False else 'ANY')]
+    if all(unch):
+        cases.append(('every atom moved with a far atom', mutate(tr, lambda t: t['ev'][dsp].update(unchanged=[False] * len(unch))), 'local'))
+    out.append(('Trace_XMapGeom', xmapgeom.TRACE_CFG % '{}', cases))
+    # GroView: a small file with the systematic battery
+    p = groview._work(([(1, 'small', [(1, 'X', ['A']), (2, 'X', ['A']), (1, 'Y', ['A'])])], os.path.join(wd, 'gv.ndjson'), wd))
+    tr = json.loads(open(p).readline())
+    gi = next(i for i, e in enumerate(tr['ev']) if e['op'] == 'get' and e['st'] == 'ok')
+    ia = next(i for i, e in enumerate(tr['ev']) if e['op'] == 'iterall')
+    cases = [('recorded trace', tr, None),
+             ('index returns the neighbouring residue', mutate(tr, lambda t: t['ev'][gi]['runs'][0].update(first=(t['ev'][gi]['runs'][0]['first'] + 1) % 3)), 'ANY'),
+             ('iteration drops the last residue', mutate(tr, lambda t: t['ev'][ia]['runs'].pop()), 'ANY'),
+             ('returned atoms differ from the file', mutate(tr, lambda t: t['ev'][gi].update(data_ok=False)), 'ANY'),
+             ('wrong residue count', mutate(tr, lambda t: t['ev'][0].update(nres=2)), 'ANY')]
+    out.append(('Trace_GroView', groview.TRACE_CFG, cases))
+    # Itp: a generated topology, read / written back / read, with its bond graph
+    p = itp._work(([(2, 'topo', 778)], os.path.join(wd, 'it.ndjson'), wd))
+    tr = json.loads(open(p).readline())
+    ti = next(i for i, e in enumerate(tr['ev']) if e['op'] == 'topo')
+    t2 = next(i for i, e in enumerate(tr['ev']) if e['op'] == 'topo2')
+    ci = next(i for i, e in enumerate(tr['ev']) if e['op'] == 'conn')
+    cases = [('recorded trace', tr, None),
+             ('a section lost on re-reading', mutate(tr, lambda t: t['ev'][1]['names'].pop()), 'section_names_in_order_of_first_appearance'),
+             ('a line lost in the second write', mutate(tr, lambda t: [x for x in t['ev'][2]['items'] if x][0].pop()), 'section_lines'),
+             ('molecule name differs', mutate(tr, lambda t: t['ev'][ti].update(name='OTHER')), 'molecule_name'),
+             ('one bond missing', mutate(tr, lambda t: t['ev'][ti]['bonds'].pop()), 'bond_graph'),
+             ('bond missing in the written-back file', mutate(tr, lambda t: t['ev'][t2]['bonds'].pop()), 'rewritten_bond_graph'),
+             ('connectivity answer negated', mutate(tr, lambda t: t['ev'][ci].update(value=not t['ev'][ci]['value'])), 'connected_iff_one_component'),
+             ('copy not independent', mutate(tr, lambda t: t['ev'][-2].update(independent=False)), 'copy_independent')]
+    out.append(('Trace_Itp', itp.TRACE_CFG % '{}', cases))
+    # GroFile: a random file written by the real writer, with the truncation sweep
+    tr = grofile.random_file_trace(5, 1, wd, 5, True)
+    fin = tr['ev'][-1]
+
+    def drop_record(t):
+        t['ev'][-1]['read']['recs'].pop()
+        t['ev'][-1]['read']['natoms'] -= 1
+
+    def corrupt_byte(t):
+        b = t['ev'][-1]['bytes']
+        k = max(i for i, c in enumerate(b) if c in '0123456789')        # last digit of the file (box line)
+        b[k] = str((int(b[k]) + 1) % 10)
+    cases = [('recorded trace', tr, None),
+             ('reader lost a record', mutate(tr, drop_record), 'reader_count'),
+             ('a digit of the box line differs', mutate(tr, corrupt_byte), 'box_in_bytes'),
+             ('a prefix before the box line was accepted', mutate(tr, lambda t: t['ev'][-1].update(min_accepted=10)), 'truncation_before_box_rejected'),
+             ('an accepted prefix returned other records', mutate(tr, lambda t: t['ev'][-1].update(accepted_exact=False)), 'accepted_truncation_exact'),
+             ('reader rejected the complete file', mutate(tr, lambda t: t['ev'][-1]['read'].update(ok=False)), 'reader_accepts')]
+    out.append(('Trace_GroFile', grofile.TRACE_CFG % '{}', cases))
+    return out, wd
+
+
 def main():
     scratch = tempfile.mkdtemp(prefix='verif_binding_')
     bad = 0
     try:
-        for fn in (cases_montecarlo, cases_alignment, cases_restraints, cases_recognise, cases_extrapolate, cases_cli, cases_pbc,
-                   cases_frames, cases_chi2, cases_moveatom):
-            module, cfg, cases = fn()
+        groups = [fn() for fn in (cases_montecarlo, cases_alignment, cases_restraints, cases_recognise, cases_extrapolate, cases_cli,
+                                  cases_pbc, cases_frames, cases_chi2, cases_moveatom)]
+        rec, recdir = _recorded()
+        groups += rec
+        for module, cfg, cases in groups:
             part = os.path.join(scratch, module + '.ndjson')
             with open(part, 'w') as fh:
                 for i, (_what, tr, _exp) in enumerate(cases, 1):
@@ -225,12 +312,16 @@ def main():
             for i, (what, _tr, exp) in enumerate(cases, 1):
                 v = verdicts.get(i)
                 got = None if v is None else ('ACC' if v[0] == 'ACC' else v[3])
-                ok = (exp is None and got == 'ACC') or (exp is not None and got == exp)
+                ok = (exp is None and got == 'ACC') or (exp is not None and got == exp) or (exp == 'ANY' and got not in (None, 'ACC'))
                 if not ok:
                     bad += 1
                 print('%-18s %-45s expected %-55s got %s %s' % (module, what, exp or 'ACC', got, '' if ok else '  <-- UNEXPECTED'))
     finally:
         shutil.rmtree(scratch, ignore_errors=True)
+        try:
+            shutil.rmtree(recdir, ignore_errors=True)
+        except NameError:
+            pass
     print('binding self-test: %s' % ('all verdicts as expected' if not bad else '%d unexpected verdicts' % bad))
     sys.exit(1 if bad else 0)
 
